@@ -94,11 +94,22 @@ theorem C06_iaText_no_sep (ia : Nat) : sepChar ∉ iaText ia := by
   unfold iaText asText
   split <;> simp only [List.mem_append, List.mem_cons, not_or] <;> simp [d10, d16, ne1, ne2]
 
-/-- Distinct (ISD-AS value, host text) pairs whose IA texts differ get distinct keys. -/
-theorem C06_clientId_of_ia_injective (ia₁ ia₂ : Nat) (h₁ h₂ : List Char)
-    (e : clientIdScionL (iaText ia₁) h₁ = clientIdScionL (iaText ia₂) h₂) :
-    iaText ia₁ = iaText ia₂ ∧ h₁ = h₂ :=
-  C06_clientIdScionL_injective _ _ _ _ (C06_iaText_no_sep ia₁) (C06_iaText_no_sep ia₂) e
+/-- `addr.IA.String()` (as modelled by `iaText`, compared with the library on every run) is
+    injective on 64-bit ISD-AS values: decimal ISD, `-`, then a decimal AS (no `:`) or three
+    hex groups separated by `:`. -/
+theorem C06_iaText_injective (a b : Nat) (ha : a < 18446744073709551616) (hb : b < 18446744073709551616)
+    (h : iaText a = iaText b) : a = b := iaText_inj a b ha hb h
+
+/-- The SCION identity is injective on (ISD-AS value, host text): two requests get the same
+    key of the timestamp store only if they come from the same ISD-AS and the same host text. -/
+theorem C06_clientIdScion_injective_on_ia_host (ia₁ ia₂ : Nat) (h₁ h₂ : List Char)
+    (b₁ : ia₁ < 18446744073709551616) (b₂ : ia₂ < 18446744073709551616)
+    (e : clientIdScionL (iaText ia₁) h₁ = clientIdScionL (iaText ia₂) h₂) : ia₁ = ia₂ ∧ h₁ = h₂ := by
+  have := C06_clientIdScionL_injective _ _ _ _ (C06_iaText_no_sep ia₁) (C06_iaText_no_sep ia₂) e
+  exact ⟨C06_iaText_injective _ _ b₁ b₂ this.1, this.2⟩
+
+example : clientIdScionL (iaText 0x0001ff0000000001) "10::1".toList ≠
+    clientIdScionL (iaText 0x0001ff0000000110) "::1".toList := by decide
 
 example : String.ofList (iaText 0x0001ff0000000110) = "1-ff00:0:110" := by decide
 example : String.ofList (iaText 0x004700000000fc00) = "71-64512" := by decide
